@@ -13,7 +13,7 @@ RULE = ("rule cases: (depth L, residual_mult, residual_attn_ratio) over a ration
         "of a depth are recorded from the real closure and (1) compared with the closed form evaluated in Fraction "
         "arithmetic, (2) pushed, as the observed floats, through the residual mixing scheme in exact arithmetic to obtain the "
         "squared contributions. stack cases: TransformerStack/TransformerDecoder built with a spy rule returning sentinels. "
-        "Non-trivial = L>=2 or mult/ratio != 1; distinct = (L, mult, ratio) resp. (class, layers).")
+        "Non-trivial = L>=2 or mult/ratio != 1; distinct = (L, mult, ratio) resp. (class, layers). The rule factory is called with keywords, positionally and mixed; the default stack is also RUN with probe sub-layers (each emits one basis vector) under grad mode, no_grad and inference_mode, and the weight with which every branch reaches the output is compared with the rule.")
 ASSUMPTIONS = ["fractions.Fraction arithmetic is exact", "isqrt-based rational square-root bracketing"]
 IMPORTS = ["unit_scaling.core.functional", "unit_scaling._modules"]
 REQUIRED_MONITORS = ["rule:taus-recorded", "rule:contribution-identities", "stack:spy-calls", "stack:attributes-checked"]
